@@ -78,7 +78,7 @@ def h_load_from_path(ctx):
 
 
 # ------------------------------------------------------------------ H19.2 termination of the enumeration battery
-def _seed(cls, little, needed=0, stripped=False):
+def _seed(cls, little, needed=0, stripped=False, nodynsec=False):
     """small well-formed shared object with sections, segments, symbols, dynamic table, notes and both hash tables"""
     img = Image(cls, little, machine=62 if cls == 64 else 3, e_type=3)
     w = lambda v: enc.enc_int(v, 4, little)
@@ -117,7 +117,8 @@ def _seed(cls, little, needed=0, stripped=False):
     img.section('.hash', sh_type=5, sh_offset=hashoff, sh_size=24, sh_link=2, sh_entsize=4)                                  # 3
     img.section('.gnu.hash', sh_type=0x6ffffff6, sh_offset=gnuoff, sh_size=28 + cls // 8, sh_link=2)                         # 4
     img.section('.note.x', sh_type=7, sh_offset=noteoff, sh_size=len(note))                                                  # 5
-    img.section('.dynamic', sh_type=6, sh_offset=dynoff, sh_size=len(tags) * dynsz, sh_entsize=dynsz, sh_link=1)             # 6
+    # (nodynsec: the header table does not describe the dynamic array - legal; the dynamic segment then finds no section of its own)
+    img.section('.dynamic', sh_type=1 if nodynsec else 6, sh_offset=dynoff, sh_size=len(tags) * dynsz, sh_entsize=dynsz, sh_link=1)             # 6
     img.add_shstrtab()                                                                                                       # 7
     # a no-bits section with a (legally) huge size: it occupies no file space, so nothing may allocate its size because of a
     # corrupted index or link that designates it
@@ -125,7 +126,9 @@ def _seed(cls, little, needed=0, stripped=False):
     img.section('', sh_name=0, sh_type=0x6ffffffe, sh_flags=2, sh_offset=vnoff, sh_size=len(verneed), sh_link=1, sh_info=1)                # 9
     img.section('', sh_name=0, sh_type=0x6ffffffd, sh_flags=2, sh_offset=vdoff, sh_size=len(verdef), sh_link=1, sh_info=1)                 # 10
     img.section('', sh_name=0, sh_type=0x6fffffff, sh_flags=2, sh_offset=vsoff, sh_size=6, sh_link=2, sh_entsize=2)                        # 11
-    data = img.build()
+    # (the nodynsec variant also pads its section header entries - e_shentsize larger than the structure is legal -, so that no entry of a
+    # claimed, longer table straddles the end of the file; some bytes follow the table, as signature blocks or appended data do)
+    data = img.build(shentsize=L.sizeof('SHDR', cls) + 64, tail=L.sizeof('SHDR', cls) + 6) if nodynsec else img.build()
     where = dict(shoff=img.shoff, phoff=img.phoff, shent=img.shent, phent=img.phent, dyn=dynoff, sym=symoff, hash=hashoff, gnu=gnuoff, note=noteoff, verneed=vnoff, verdef=vdoff)
     return data, where
 
@@ -231,7 +234,7 @@ def h_battery(ctx):
     EF = ctx.lib('elf.elffile')
     EXC = ctx.lib('common.exceptions')
     ctx.loose_text(True)
-    data, where = _seed(cls, little, cfg.get('needed', 0), cfg.get('stripped', False))
+    data, where = _seed(cls, little, cfg.get('needed', 0), cfg.get('stripped', False), cfg.get('nodynsec', False))
     data = list(data)
     trunc = cfg.get('truncate')
     for k, spec in enumerate(cfg.get('fields', [])):
@@ -365,6 +368,9 @@ def _battery_instances(tier):
         for a, b in pairs if tier == 'thorough' else [pairs[0], pairs[2], pairs[7], pairs[8]]:      # stride x count of both header tables also in the quick tier
             out.append(dict(elfclass=cls, little=little, fields=[list(a), list(b)]))
         out.append(dict(elfclass=cls, little=little, fields=[list(pairs[6][0]), list(pairs[6][1])], range='beyond'))
+        # the same count pairs on a file whose header table does not describe the dynamic array
+        out.append(dict(elfclass=cls, little=little, fields=[list(pairs[0][0]), list(pairs[0][1])], nodynsec=True))
+        out.append(dict(elfclass=cls, little=little, fields=[], nodynsec=True))
         # long tables (a cost that is quadratic in the number of entries only shows with many entries), with and without section headers
         for stripped in (True, False):
             out.append(dict(elfclass=cls, little=little, fields=[], needed=BIG, stripped=stripped))
